@@ -54,17 +54,17 @@ section three
 variable (o : Opts) (t1 t2 t3 : List Char) (a b : Int) (s0 : TupState)
   (h0 : s0.numSet = 0 ∧ s0.card = 0)
   (hc1 : runChecks o.checks t1 = none) (hc2 : runChecks o.checks t2 = none) (hc3 : runChecks o.checks t3 = none)
-  (hv1 : convInt t1 = some a) (hv3 : convInt t3 = some b)
+  (hv1 : convInt (applyPos o.fmtPos 0 t1) = some a) (hv3 : convInt (applyPos o.fmtPos 2 t3) = some b)
 include h0 hc1 hc2 hc3 hv1 hv3
 
 /-- three elements in one list -/
 theorem tup_elems_3 :
-    tupElems o { s0 with card := 1 } 0 [t1, t2, t3] = ({ s0 with a := a, s := t2, b := b, numSet := 3, card := 3 }, none) := by
+    tupElems o { s0 with card := 1 } 0 [t1, t2, t3] = ({ s0 with a := a, s := applyPos o.fmtPos 1 t2, b := b, numSet := 3, card := 3 }, none) := by
   obtain ⟨hn, hc⟩ := h0
   simp [tupElems, tupStep, TupState.gotValue, TupState.put, tupLen, hn, hc1, hc2, hc3, hv1, hv3]
 
 theorem tup_run_1 (u : List Char) (hu : tokens o.sep u = [t1, t2, t3]) :
-    tupRunP o s0 [u] = ({ s0 with a := a, s := t2, b := b, numSet := 3, card := 3 }, none) := by
+    tupRunP o s0 [u] = ({ s0 with a := a, s := applyPos o.fmtPos 1 t2, b := b, numSet := 3, card := 3 }, none) := by
   have h3 := tup_elems_3 o t1 t2 t3 a b s0 h0 hc1 hc2 hc3 hv1 hv3
   obtain ⟨hn, hc⟩ := h0
   simp only [tupRunP, tupAssignP, TupState.gotValue, hc, hu, tupLen]
@@ -72,20 +72,20 @@ theorem tup_run_1 (u : List Char) (hu : tokens o.sep u = [t1, t2, t3]) :
   rw [h3]
 
 theorem tup_run_12 (u1 u2 : List Char) (hu1 : tokens o.sep u1 = [t1]) (hu2 : tokens o.sep u2 = [t2, t3]) :
-    tupRunP o s0 [u1, u2] = ({ s0 with a := a, s := t2, b := b, numSet := 3, card := 3 }, none) := by
+    tupRunP o s0 [u1, u2] = ({ s0 with a := a, s := applyPos o.fmtPos 1 t2, b := b, numSet := 3, card := 3 }, none) := by
   obtain ⟨hn, hc⟩ := h0
   simp [tupRunP, tupAssignP, tupElems, tupStep, TupState.gotValue, TupState.put, tupLen, hn, hc, hu1, hu2,
     hc1, hc2, hc3, hv1, hv3]
 
 theorem tup_run_21 (u1 u2 : List Char) (hu1 : tokens o.sep u1 = [t1, t2]) (hu2 : tokens o.sep u2 = [t3]) :
-    tupRunP o s0 [u1, u2] = ({ s0 with a := a, s := t2, b := b, numSet := 3, card := 3 }, none) := by
+    tupRunP o s0 [u1, u2] = ({ s0 with a := a, s := applyPos o.fmtPos 1 t2, b := b, numSet := 3, card := 3 }, none) := by
   obtain ⟨hn, hc⟩ := h0
   simp [tupRunP, tupAssignP, tupElems, tupStep, TupState.gotValue, TupState.put, tupLen, hn, hc, hu1, hu2,
     hc1, hc2, hc3, hv1, hv3]
 
 theorem tup_run_111 (u1 u2 u3 : List Char) (hu1 : tokens o.sep u1 = [t1]) (hu2 : tokens o.sep u2 = [t2])
     (hu3 : tokens o.sep u3 = [t3]) :
-    tupRunP o s0 [u1, u2, u3] = ({ s0 with a := a, s := t2, b := b, numSet := 3, card := 3 }, none) := by
+    tupRunP o s0 [u1, u2, u3] = ({ s0 with a := a, s := applyPos o.fmtPos 1 t2, b := b, numSet := 3, card := 3 }, none) := by
   obtain ⟨hn, hc⟩ := h0
   simp [tupRunP, tupAssignP, tupElems, tupStep, TupState.gotValue, TupState.put, tupLen, hn, hc, hu1, hu2, hu3,
     hc1, hc2, hc3, hv1, hv3]
